@@ -478,6 +478,7 @@ pub fn build_typed(n: &Node, env: &Env) -> Built {
     Op::FlatMap(k) => {
       let k = *k;
       let hots = env.srcs.clone();
+      let toks = env.toks.clone();
       Built::V(src.flat_map(move |x: V| {
         let _ = &t;
         match k {
@@ -487,7 +488,14 @@ pub fn build_typed(n: &Node, env: &Env) -> Built {
             observables::from_iter(vec![x.clone(), x.with(D::I(x.d.i() + 100))].into_iter())
           }
           Inner::Err => observables::error(err(40 + x.d.i())),
-          Inner::Hot { base, n } => hots[base + (x.d.i().rem_euclid(n as i64) as usize)].clone(),
+          Inner::Hot { base, n } => {
+            // an operator closure of its own on every inner pipeline (C17: released with the subscription)
+            let ti = toks.take("closure of a flat_map inner pipeline");
+            hots[base + (x.d.i().rem_euclid(n as i64) as usize)].map(move |v| {
+              let _ = &ti;
+              v
+            })
+          }
         }
       }))
     }
